@@ -158,6 +158,232 @@ class GenIntProblem:
         return out
 
 
+# ---------------------------------------------------------------------------------------------- permuted parameters
+def cross_action_shared_tuples(insts, plan):
+    """Number of pairs of steps of `plan` that are instances of DIFFERENT actions with the SAME tuple of actual parameters."""
+    n = 0
+    for i in range(len(plan)):
+        for j in range(i + 1, len(plan)):
+            (a, xs), (b, ys) = insts[plan[i]], insts[plan[j]]
+            n += a is not b and len(xs) > 0 and tuple(xs) == tuple(ys)
+    return n
+
+
+class GenPermProblem:
+    """Generated problems whose 2-3 actions all declare the SAME parameter names with the same type (x, y[, z] : T) —
+    in a different order per action (`permuted=True`) or in the same order (`permuted=False`, the control group) — and
+    mention lifted fluent expressions over those names drawn mostly from one small pool shared by the actions of the
+    problem: f(x), h(y), r(x, y), r(y, x), c(x) ...  Parameters are compared by name and type, so `f(x)` of one action
+    and `f(x)` of another are the very same expression object although `x` sits at another position; two instances with
+    the same tuple of actual parameters then ground that one expression differently.  Unary and binary Boolean fluents,
+    a unary integer fluent, literals / comparisons / disjunctions as (effect) conditions, assignments, increases, values
+    that read fluents, occasionally an existential precondition and a conditional forall effect whose condition mentions
+    a parameter.  No invariants and no bounded types (every plan is inside the theorem's hypothesis)."""
+
+    prefer_shared_tuples = True
+
+    def __init__(self, rng, permuted=True):
+        from collections import OrderedDict
+        from unified_planning.environment import Environment
+        from unified_planning.model import Fluent, Object, Problem, InstantaneousAction, Variable
+        self.rng = rng
+        self.env = env = Environment()
+        tm, em = env.type_manager, env.expression_manager
+        self.em = em
+        self.label = None
+        self.permuted = permuted
+        T = tm.UserType("T")
+        arity = 3 if rng.random() < 0.3 else 2
+        nobj = 2 if arity == 3 else rng.randint(2, 3)
+        p = self.problem = Problem("gp", env)
+        objs = [Object("o%d" % (i + 1), T, env) for i in range(nobj)]
+        p.add_objects(objs)
+        f = Fluent("f", tm.BoolType(), OrderedDict([("o", T)]), env)
+        h = Fluent("h", tm.BoolType(), OrderedDict([("o", T)]), env)
+        r = Fluent("r", tm.BoolType(), OrderedDict([("a", T), ("b", T)]), env)
+        c = Fluent("c", tm.IntType(), OrderedDict([("o", T)]), env)
+        g = Fluent("g", tm.BoolType(), environment=env)
+        p.add_fluent(f, default_initial_value=False)
+        p.add_fluent(h, default_initial_value=False)
+        p.add_fluent(r, default_initial_value=False)
+        p.add_fluent(c, default_initial_value=0)
+        p.add_fluent(g, default_initial_value=False)
+        for o in objs:
+            if rng.random() < 0.5:
+                p.set_initial_value(f(o), True)
+            if rng.random() < 0.4:
+                p.set_initial_value(h(o), True)
+            if rng.random() < 0.4:
+                p.set_initial_value(c(o), rng.randint(0, 2))
+            for o2 in objs:
+                if rng.random() < 0.4:
+                    p.set_initial_value(r(o, o2), True)
+        names = ["x", "y", "z"][:arity]
+        # lifted atoms as (fluent, parameter names); most occurrences come from a small pool shared by all the actions
+        every = [(fl, (n,)) for fl in (f, h, c) for n in names] + [(r, (n, m)) for n in names for m in names]
+        pool = rng.sample(every, rng.randint(3, 4))
+        v = Variable("v", T, env)
+
+        n_act = rng.randint(2, 3)
+        orders = []
+        for ai in range(n_act):
+            order = list(names)
+            if permuted:
+                rng.shuffle(order)
+                while ai == 1 and order == orders[0]:
+                    rng.shuffle(order)
+            orders.append(order)
+        self.orders = orders
+
+        self.actions = []
+        for ai, order in enumerate(orders):
+            a = InstantaneousAction("a%d" % ai, OrderedDict((n, T) for n in order), env)
+            P = {n: em.ParameterExp(a.parameter(n)) for n in names}
+
+            def atom(numeric):
+                for _ in range(20):
+                    fl, ns = rng.choice(pool) if rng.random() < 0.75 else rng.choice(every)
+                    if (fl is c) == numeric:
+                        return fl(*[P[n] for n in ns])
+                return c(P[rng.choice(names)]) if numeric else f(P[rng.choice(names)])
+
+            def cond():
+                q = rng.random()
+                if q < 0.45:
+                    return atom(False)
+                if q < 0.7:
+                    return em.Not(atom(False))
+                if q < 0.85:
+                    return em.LE(atom(True), rng.randint(0, 2))
+                return em.Or(atom(False), em.Not(atom(False)) if rng.random() < 0.5 else atom(False))
+
+            for _ in range(rng.choice([0, 1, 1, 2])):
+                a.add_precondition(cond())
+            if rng.random() < 0.1:
+                a.add_precondition(em.Exists(r(P[rng.choice(names)], v), v))
+            n, tries = rng.randint(1, 3), 0
+            while n > 0 and tries < 10:
+                tries += 1
+                cnd = cond() if rng.random() < 0.25 else True
+                try:
+                    q = rng.random()
+                    if q < 0.45:
+                        a.add_effect(atom(False), rng.random() < 0.6, cnd)
+                    elif q < 0.6:
+                        a.add_increase_effect(atom(True), 1, cnd)
+                    elif q < 0.75:
+                        a.add_effect(atom(True), em.Plus(atom(True), 1), cnd)
+                    elif q < 0.85:
+                        a.add_effect(atom(False), atom(False), cnd)
+                    elif q < 0.93:
+                        a.add_effect(g, atom(False), cnd)
+                    else:
+                        a.add_effect(f(v), rng.random() < 0.5, condition=r(P[rng.choice(names)], v), forall=(v,))
+                    n -= 1
+                except Exception:  # noqa  (conflicting effects on the same lifted target)
+                    pass
+            if not a.effects:
+                a.add_effect(g, True)
+            p.add_action(a)
+            self.actions.append(a)
+        o = rng.choice(objs)
+        p.add_goal(rng.choice([f(o), h(o), em.Not(f(o)), em.LE(1, c(o)), em.FluentExp(g)]))
+
+    def param_domain(self, t):
+        return [self.em.ObjectExp(o) for o in self.problem.objects(t)]
+
+    def ground_instances(self):
+        out = []
+        for a in self.actions:
+            for args in product(*[self.param_domain(pp.type) for pp in a.parameters]):
+                out.append((a, tuple(args)))
+        return out
+
+
+class PermHand(sx.HandProblem):
+    """Hand problem whose plans are searched over a given list of ground instances only (so that the few valid plans are
+    exactly the aimed-at ones: instances of different actions that carry the same tuple of actual parameters)."""
+
+    prefer_shared_tuples = True
+
+    def __init__(self, problem, label, instances):
+        sx.HandProblem.__init__(self, problem, label)
+        objs = {o.name: o for o in problem.all_objects}
+        self.instances = [(problem.action(a), tuple(self.em.ObjectExp(objs[x]) for x in xs)) for a, xs in instances]
+
+    def ground_instances(self):
+        return list(self.instances)
+
+
+def perm_hand_corpus():
+    """Actions that declare the same parameter names (same type) at different positions, and plans in which instances of
+    both carry the same tuple of actual parameters; each problem has a dependency that exists only because the shared
+    lifted expression is grounded per action.  The last problem is the control (same order in both actions)."""
+    from unified_planning.shortcuts import Fluent, Object, Problem, InstantaneousAction
+    from unified_planning.environment import Environment
+    out = []
+
+    def base(label):
+        env = Environment()
+        tm = env.type_manager
+        T = tm.UserType("T")
+        p = Problem(label, env)
+        p.add_objects([Object("o1", T, env), Object("o2", T, env)])
+        return env, env.expression_manager, tm, T, p, p.object("o1"), p.object("o2")
+
+    def bfl(p, env, tm, name, init=False, **sig):
+        fl = Fluent(name, tm.BoolType(), environment=env, **sig)
+        p.add_fluent(fl, default_initial_value=init)
+        return fl
+
+    def act(env, name, **params):
+        return InstantaneousAction(name, _env=env, **params)
+
+    # 19. read after write: mark(x, y) writes f(x); probe(y, x) reads f(x) = its SECOND actual parameter
+    def mark_probe(label, probe_order, probe_args):
+        env, em, tm, T, p, o1, o2 = base(label)
+        f, done = bfl(p, env, tm, "f", o=T), bfl(p, env, tm, "done", o=T)
+        mark = act(env, "mark", x=T, y=T); mark.add_effect(f(mark.parameter("x")), True)
+        probe = act(env, "probe", **{n: T for n in probe_order})
+        probe.add_precondition(f(probe.parameter("x"))); probe.add_effect(done(probe.parameter("y")), True)
+        p.add_action(mark); p.add_action(probe)
+        p.add_goal(done(o1)); p.add_goal(f(o1))
+        return PermHand(p, label, [("mark", ("o2", "o1")), ("mark", ("o1", "o2")), ("probe", probe_args)])
+
+    out.append(mark_probe("perm-params-read-after-write", ("y", "x"), ("o1", "o2")))
+    ctrl = mark_probe("perm-params-control-same-order", ("x", "y"), ("o2", "o1"))
+    # 20. two steps are enough when the first action mentions both f(x) and f(y)
+    env, em, tm, T, p, o1, o2 = base("perm-params-two-step")
+    f, done = bfl(p, env, tm, "f", o=T), bfl(p, env, tm, "done", o=T)
+    p.set_initial_value(f(o1), True)
+    cp = act(env, "cp", x=T, y=T); cp.add_precondition(f(cp.parameter("x"))); cp.add_effect(f(cp.parameter("y")), True)
+    probe = act(env, "probe", y=T, x=T)
+    probe.add_precondition(f(probe.parameter("x"))); probe.add_effect(done(probe.parameter("y")), True)
+    p.add_action(cp); p.add_action(probe); p.add_goal(done(o1))
+    out.append(PermHand(p, "perm-params-two-step", [("cp", ("o1", "o2")), ("probe", ("o1", "o2")), ("probe", ("o2", "o1"))]))
+    # 21. anti-dependency over a binary fluent: use(x, y) reads r(x, y), del(y, x) deletes r(x, y)
+    env, em, tm, T, p, o1, o2 = base("perm-params-anti-dependency")
+    r, got = bfl(p, env, tm, "r", init=True, a=T, b=T), bfl(p, env, tm, "got", o=T)
+    use = act(env, "use", x=T, y=T)
+    use.add_precondition(r(use.parameter("x"), use.parameter("y"))); use.add_effect(got(use.parameter("x")), True)
+    dele = act(env, "del", y=T, x=T); dele.add_effect(r(dele.parameter("x"), dele.parameter("y")), False)
+    p.add_action(use); p.add_action(dele)
+    p.add_goal(em.And(got(o1), got(o2), em.Not(r(o2, o1))))
+    out.append(PermHand(p, "perm-params-anti-dependency", [("use", ("o2", "o1")), ("use", ("o1", "o2")), ("del", ("o1", "o2"))]))
+    # 22. three parameters, numeric write-write: set(x, y, z) assigns c(x), add(z, x, y) increases c(x)
+    env, em, tm, T, p, o1, o2 = base("perm-params-triple-write-write")
+    c = Fluent("c", tm.IntType(), o=T, environment=env); p.add_fluent(c, default_initial_value=0)
+    st = act(env, "set", x=T, y=T, z=T); st.add_effect(c(st.parameter("x")), 1)
+    add = act(env, "add", z=T, x=T, y=T); add.add_increase_effect(c(add.parameter("x")), 2)
+    p.add_action(st); p.add_action(add)
+    p.add_goal(em.And(em.Equals(c(o2), 3), em.Equals(c(o1), 1)))
+    out.append(PermHand(p, "perm-params-triple-write-write",
+                        [("set", ("o2", "o1", "o1")), ("set", ("o1", "o2", "o2")), ("add", ("o1", "o2", "o2"))]))
+    # 23. control: the same pair of actions with the same parameter order
+    out.append(ctrl)
+    return out
+
+
 # ---------------------------------------------------------------------------------------------- hand-written corpus
 def hand_corpus():
     """Small problems, each aimed at one ingredient of the read/write sets or of the ordering loop."""
@@ -415,6 +641,8 @@ def valid_plans(gen, rng, maxlen, budget, branch, want, exhaustive=False):
     except (up.exceptions.UPProblemDefinitionError, up.exceptions.UPUsageError):
         return None
     insts = gen.ground_instances()
+    # families about instances of different actions with one tuple of actual parameters: such plans come first
+    prefer = getattr(gen, "prefer_shared_tuples", False)
     if exhaustive:
         seqs = executable_sequences(sim, insts, rng, maxlen, 4000, 99)
     else:
@@ -433,6 +661,8 @@ def valid_plans(gen, rng, maxlen, budget, branch, want, exhaustive=False):
         if longest:
             longest.sort(key=lambda x: -len(x[0]))
             top = [x for x in longest if len(x[0]) == len(longest[0][0])]
+            if prefer:
+                top = [x for x in top if cross_action_shared_tuples(insts, x[0])] or top
             seq, st = rng.choice(top)
             ser0 = SerProblemInt(problem)
             goals = goal_from_state(gen, ser0, st, rng)
@@ -449,6 +679,8 @@ def valid_plans(gen, rng, maxlen, budget, branch, want, exhaustive=False):
     if not exhaustive and len(good) > want * 6:
         # a random sample of candidates (the caller keeps the `want` most interesting ones)
         rng.shuffle(good)
+        if prefer:
+            good.sort(key=lambda s: not cross_action_shared_tuples(insts, s))     # stable: a random sample of each part
         good = sorted(good[:want * 6], key=lambda s: (-len(s), s))
     return ser, s0, insts, good, rewritten
 
@@ -548,6 +780,7 @@ def run(ctx):
         n_noinv, n_inv, n_int, maxlen, want, budget, branch = 30, 18, 30, 4, 4, 200, 3
     else:
         n_noinv, n_inv, n_int, maxlen, want, budget, branch = 300, 200, 300, 5, 6, 500, 3
+    n_perm, n_perm_ctrl = (24, 6) if ctx.quick else (240, 60)
     sources = [("hand", hp, None) for hp in hand_corpus()]
     noinv = dict(invariants=False, bounded=False, max_actions=3)
     sources += [("noinv", None, dict(noinv)) for _ in range(n_noinv)]
@@ -556,12 +789,18 @@ def run(ctx):
     sources += [("inv", None, dict(max_actions=3)) for _ in range(n_inv)]
     sources += [("inv", None, dict(max_actions=3, obj_fluents=False)) for _ in range(n_inv)]
     sources += [("intarg", None, None) for _ in range(n_int)]
+    # actions sharing parameter names at different positions (and, as a control, at the same positions); added after
+    # the older families so that those keep their random sample
+    sources += [("hand", hp, None) for hp in perm_hand_corpus()]
+    sources += [("permpar", None, {"permuted": True}) for _ in range(n_perm)]
+    sources += [("permpar", None, {"permuted": False}) for _ in range(n_perm_ctrl)]
 
     pre, cases, owners = [], [], []
     stats = {g: {"problems": 0, "retries": 0, "skipped": 0, "no_plan": 0, "goal_rewritten": 0, "plans": 0, "raised_nested": 0,
                  "converted": 0, "linearisations": 0, "capped": 0, "plans_with_several_linearisations": 0,
-                 "edges": 0, "len_hist": {}}
-             for g in ("hand", "noinv", "inv", "intarg")}
+                 "edges": 0, "len_hist": {},
+                 "plans_with_cross_action_shared_tuple": 0}
+             for g in ("hand", "noinv", "inv", "intarg", "permpar")}
     feat = {"cond": 0, "forall": 0, "incdec": 0, "quantified_pre": 0}
     pi = 0
     for group, hp, knobs in sources:
@@ -569,7 +808,8 @@ def run(ctx):
         for attempt in range(1 if hp is not None else 4):
             # many random problems have fewer than two executable instances: retry a few times (counted)
             if hp is None:
-                gen = GenIntProblem(rng) if group == "intarg" else GenProblem(rng, **knobs)
+                gen = (GenIntProblem(rng) if group == "intarg" else GenPermProblem(rng, **knobs) if group == "permpar"
+                       else GenProblem(rng, **knobs))
                 if len(gen.ground_instances()) < 2:
                     continue
             res = valid_plans(gen, rng, maxlen if hp is None else 4, budget, branch, want, exhaustive=hp is not None)
@@ -602,13 +842,16 @@ def run(ctx):
         converted = [(plan, convert(problem, insts, plan)) for plan in plans]
         if hp is None and len(converted) > want:
             # keep the plans whose partial order has the most linearisations (and one that raised, if any)
-            converted.sort(key=lambda po: (-min(len(po[1]["lins"]), 8), -len(po[0]), po[0]))
+            shared = getattr(gen, "prefer_shared_tuples", False)
+            converted.sort(key=lambda po: (not (shared and cross_action_shared_tuples(insts, po[0])),
+                                           -min(len(po[1]["lins"]), 8), -len(po[0]), po[0]))
             keep = converted[:want]
             raised = [po for po in converted[want:] if po[1]["raised"]]
             converted = keep + raised[:1]
         for plan, obs in converted:
             st["plans"] += 1
             st["len_hist"][len(plan)] = st["len_hist"].get(len(plan), 0) + 1
+            st["plans_with_cross_action_shared_tuple"] += cross_action_shared_tuples(insts, plan) > 0
             if obs["raised"]:
                 st["raised_nested"] += 1
             else:
